@@ -16,6 +16,8 @@ inherit <n> <m> | <oracle>
 restore <n> <8 alive bits> <8 csv fail> <8 csv tfail> | <oracle>
 floor <g> <idx:n,...|-> | <oracle>
 reload <g>/<idx:n,...|->/<new:old,...|-> ... | <oracle>     (ControlPlane.InheritDialerHealthFrom)
+handover o/<gname>/<n:name,..> ... n/<gid>/<gname>/<idx:n,..|->/<n:name,..> ... | <oracle>
+        (InheritDialerHealthFrom given both generations; the MODEL does the group-name/node-name matching)
 kcb <outbound> <typ> <alive> <isInit> <dryrun> <retired> <closed>  -> key=.. val=.. | unchanged
 typidx <typ>           -> idx=<Index()> udp=<0/1> data=<0/1>
 consts                 -> the model's constants
@@ -99,6 +101,18 @@ def parseReloadGroup? (tok : String) : Option ReloadGroup :=
     pure ⟨g, f, ps⟩
   | _ => none
 
+/-- `o/<gname>/<n:name,...|->`  or  `n/<gid>/<gname>/<idx:n,...|->/<n:name,...|->` -/
+def parseGen? (toks : List String) : Option (List GenGroup × List GenGroup × List (Nat × List (Nat × Nat))) :=
+  toks.foldlM (fun (acc : List GenGroup × List GenGroup × List (Nat × List (Nat × Nat))) tok =>
+    match tok.splitOn "/" with
+    | ["o", gn, ms] => do
+      let gn ← gn.toNat?; let ms ← natPairs? ms
+      pure (acc.1 ++ [⟨0, gn, ms⟩], acc.2.1, acc.2.2)
+    | ["n", g, gn, fb, ms] => do
+      let g ← g.toNat?; let gn ← gn.toNat?; let fb ← natPairs? fb; let ms ← natPairs? ms
+      pure (acc.1, acc.2.1 ++ [⟨g, gn, ms⟩], acc.2.2 ++ [(g, fb)])
+    | _ => none) ([], [], [])
+
 def parseEvent? (ws : List String) : Option Event :=
   let (hd, otoks) := splitBar ws
   match parseOracle? otoks with
@@ -124,6 +138,13 @@ def parseEvent? (ws : List String) : Option Event :=
       let f ← parseCsv? f; let t ← parseCsv? t
       let bs := bits.toList.map (· == '1')
       pure (.restore (← n.toNat?) ⟨listFn bs false, listFn f 0, listFn t 0⟩ o)
+    | "handover" :: gtoks => do
+      let (olds, news, fbs) ← parseGen? gtoks
+      let fb : Nat → Nat → Option Nat := fun g i =>
+        match fbs.find? fun e => e.1 == g with
+        | some e => (match e.2.find? fun x => x.1 == i with | some x => some x.2 | none => none)
+        | none => none
+      pure (.reload (reloadGroupsOf olds news fb) o)
     | "reload" :: gtoks => do
       let gs ← gtoks.mapM parseReloadGroup?
       pure (.reload gs o)
